@@ -46,6 +46,9 @@ func streamC54(h *H) {
 			sub = "weird"
 			g.Weird = true
 		}
+		if sub == "stats" && h.Intn(5) == 0 {
+			g.NoInodes = true
+		}
 		k := 1
 		if sub != "restore" {
 			k = 1 + h.Intn(3)
